@@ -105,7 +105,7 @@ class C13(Machine):
 
     def plan(self, tier):
         if tier == 'quick':
-            return {'runs': 4000, 'budget_s': 300, 'det_runs': 3,
+            return {'runs': 3000, 'budget_s': 600, 'det_runs': 3,
                     'run_timeout': 120, 'shrink_s': 90}
         return {'runs': 120000, 'budget_s': 2400, 'det_runs': 5,
                 'run_timeout': 120, 'shrink_s': 200}
